@@ -50,3 +50,69 @@ func repeatProp(rt *rapid.T, rec *ev.Rec) {
 	}
 	check(rt, rec, gp, fmt.Sprintf("repeated-%d", repeatTimes))
 }
+
+// pendingBranch: every kind of pending completion (return with one / no / several values, thrown value,
+// failing operator, none) abandoned by a break or continue in a finally (or catch) block, in four
+// placements, executed repeatTimes times. Enumerated, not sampled: found as a genuine defect by the
+// sampled property above only in the thorough tier (a pending return value stayed on the stack).
+func pendingBranch(t interface{ Fatalf(string, ...any) }, rec *ev.Rec) {
+	lgN := 0
+	lg := func() gen.Stmt {
+		lgN++
+		return &gen.ExprStmt{X: &gen.Call{Fn: gen.Id("L"), Args: []gen.Expr{gen.StrLit(fmt.Sprintf("p%d", lgN))}}}
+	}
+	pendings := map[string]func() []gen.Stmt{
+		"return-1":    func() []gen.Stmt { return []gen.Stmt{&gen.Return{Xs: []gen.Expr{gen.IntLit(1)}}} },
+		"return-bare": func() []gen.Stmt { return []gen.Stmt{&gen.Return{}} },
+		"return-2":    func() []gen.Stmt { return []gen.Stmt{&gen.Return{Xs: []gen.Expr{gen.IntLit(1), gen.IntLit(2)}}} },
+		"throw":       func() []gen.Stmt { return []gen.Stmt{&gen.Throw{X: gen.StrLit("x")}} },
+		"div0":        func() []gen.Stmt { return []gen.Stmt{&gen.ExprStmt{X: &gen.Binary{Op: "/", L: gen.IntLit(1), R: gen.Id("zero")}}} },
+		"none":        func() []gen.Stmt { return nil },
+	}
+	names := []string{"return-1", "return-bare", "return-2", "throw", "div0", "none"}
+	for _, pn := range names {
+		for _, br := range []string{"continue", "break"} {
+			for place := 0; place < 4; place++ {
+				var branch gen.Stmt = &gen.Continue{}
+				if br == "break" {
+					branch = &gen.Break{}
+				}
+				pend := pendings[pn]()
+				var core gen.Stmt
+				switch place {
+				case 0: // try { P } finally { branch }
+					core = &gen.Try{Body: pend, HasFinally: true, Finally: []gen.Stmt{branch}}
+				case 1: // try { try { P } finally { } } finally { branch }
+					core = &gen.Try{Body: []gen.Stmt{&gen.Try{Body: pend, HasFinally: true, Finally: []gen.Stmt{lg()}}}, HasFinally: true, Finally: []gen.Stmt{branch}}
+				case 2: // try { try { P } finally { branch } } finally { log }
+					core = &gen.Try{Body: []gen.Stmt{&gen.Try{Body: pend, HasFinally: true, Finally: []gen.Stmt{branch}}}, HasFinally: true, Finally: []gen.Stmt{lg()}}
+				default: // try { P } catch e { branch } finally { log }   (the branch runs only when P throws)
+					core = &gen.Try{Body: pend, HasCatch: true, CatchIdent: "e", Catch: []gen.Stmt{branch}, HasFinally: true, Finally: []gen.Stmt{lg()}}
+				}
+				// break leaves the loop at once: wrap it in an inner loop so that it is repeated too
+				body := []gen.Stmt{&gen.IncDec{Target: gen.Id("n"), Inc: true}, core}
+				if br == "break" {
+					body = []gen.Stmt{&gen.IncDec{Target: gen.Id("n"), Inc: true},
+						&gen.For{Init: &gen.Define{Names: []string{"j"}, X: gen.IntLit(0)}, Cond: &gen.Binary{Op: "<", L: gen.Id("j"), R: gen.IntLit(1)},
+							Post: &gen.IncDec{Target: gen.Id("j"), Inc: true}, Body: []gen.Stmt{core}}}
+				}
+				loop := &gen.For{Init: &gen.Define{Names: []string{"rEp"}, X: gen.IntLit(0)},
+					Cond: &gen.Binary{Op: "<", L: gen.Id("rEp"), R: gen.IntLit(repeatTimes)},
+					Post: &gen.IncDec{Target: gen.Id("rEp"), Inc: true}, Body: body}
+				fb := []gen.Stmt{
+					&gen.Define{Names: []string{"zero"}, X: gen.IntLit(0)},
+					&gen.Define{Names: []string{"n"}, X: gen.IntLit(0)},
+					loop,
+					&gen.Return{Xs: []gen.Expr{gen.Id("n")}},
+				}
+				prog := []gen.Stmt{
+					&gen.GlobalDecl{Names: []string{"L"}},
+					&gen.Define{Names: []string{"f0"}, X: &gen.FuncLit{Params: []string{"a"}, Body: fb}},
+					&gen.Return{Xs: []gen.Expr{&gen.Call{Fn: gen.Id("f0"), Args: []gen.Expr{gen.IntLit(1)}}}},
+				}
+				gp := &gen.GenProgram{Program: gen.Program{Body: prog}, Features: gen.Features{"try": 1, "repeated": 1, "exit-" + br: 1, "exit-in-finally": 1}, UsesL: true}
+				check(t, rec, gp, "pending-"+pn+"-abandoned-by-"+br)
+			}
+		}
+	}
+}
